@@ -9,11 +9,13 @@ inductive XOp where
   | clone
   | swap
   | reset
+  | bsz
 
 def parseXOp (s : String) : Option XOp :=
   if s == "c" then some .clone
   else if s == "x" then some .swap
   else if s == "r" then some .reset
+  else if s == "z" then some .bsz
   else if s.startsWith "sk" then (s.drop 2).toString.toNat?.map .sk
   else if s.startsWith "rd" then (s.drop 2).toString.toNat?.map .rd
   else if s.startsWith "w" then (s.drop 1).toString.toNat?.map .w
@@ -40,6 +42,7 @@ def runX {X : XAlg} : Xof X → Option (Xof X) → List XOp → Bytes → List S
     | none => none
     | some o => runX o (some cur) rest data acc
   | cur, oth, .reset :: rest, data, acc => runX cur.reset oth rest data acc
+  | cur, oth, .bsz :: rest, data, acc => runX cur oth rest data (s!"z{X.A.bs}" :: acc)
 
 def xofOn (X : XAlg) (o : Op) : String :=
   match o.nat? "len", o.hex? "key", parseXOps (o.str "ops"), o.hex? "data" with
